@@ -31,11 +31,12 @@ def a_side(r, cls, n):
 def prepare(ctx):
     """Translator tie (see gen_tie.py): SimpleARTMAP.match_reset_func is regenerated from the source and proved
     to be the negation of the model's veto"""
-    from .gen_tie import gen_prepare
-    gen_prepare(ctx, ["smap_match_reset", "Control.smap_step_via_generated", "Control.mapPut_if_absent", "Control.smap_lambda_eq",
+    from .gen_tie import gen_prepare, extra_theorems
+    from .. import atrans
+    gen_prepare(ctx, extra_theorems("atrans") + ["smap_match_reset", "Control.smap_step_via_generated", "Control.mapPut_if_absent", "Control.smap_lambda_eq",
                       "Control.smap_generated_step_fit", "Control.smap_step_pred_spec", "Control.smap_predict_spec",
                       "Control.smap_partial_fit_loop", "Control.smap_partial_fit_spec", "Control.smap_fit_epoch", "Control.smap_fit_spec"],
-                "SimpleARTMAP.match_reset_func; the model's supervised step = generated BaseART.step_fit under the generated veto")
+                "SimpleARTMAP.match_reset_func; the model's supervised step = generated BaseART.step_fit under the generated veto; " + atrans.COVERS)
 
 
 def kw_pre(mode, eps):
